@@ -38,6 +38,15 @@ CLAUSES = [
     "a guarded use after every step (call; parameters / children / modules / to / eval via the correspondence)",
     "unsupported stype/encoder pairings rejected at construction -> keys pairing-accepted, pairing-rejected, wiring; "
     "kind=reject (child-stype keys, unsupported classes, stypes absent from the data)",
+    # MUST-RAISE demands and the words of the statement that back them (everything else: a raise OR a result
+    # satisfying the other clauses is accepted, and the Coq term is not compared on a normal return):
+    "pairing-accepted <- 'unsupported stype/encoder pairings are rejected at construction' (the class does not "
+    "document the stype; a child-stype key with a class that documents it is NOT backed: either outcome accepted)",
+    "lazy-use-before-complete <- 'refuse to run while incompletely specified' (__call__ only; parameters / "
+    "children / modules / to / eval on an incomplete module are not demanded to raise)",
+    "lazy-rejection / lazy-differs-from-eager (raise at completion) <- 'behave identically to eagerly constructed "
+    "ones': the completing assignment raises exactly when the eager constructor raises on the same configuration; "
+    "whether an inadmissible NA strategy must be rejected at all is C13's clause, not demanded here",
     # quantifier
     "all encoder classes admissible per stype x NA strategies or none x post-modules x channels x batch selections "
     "-> gen_spec / gen_frame_case; sanity()",
@@ -45,6 +54,36 @@ CLAUSES = [
     "StypeWiseFeatureEncoder(...) positional vs keyword; fe(tf) vs fe.forward(tf); after .to('cpu') / .cpu(); an "
     "encoder for a stype the data does not have; encoder keyword defaults (n_bins, out_size) and non-defaults "
     "-> stats()['how'], sanity()",
+]
+
+# ERROR_PATHS of stypewise_encoder.py, base.py, encoding/*.py and the parts of stype_encoder.py C12 speaks about
+ERROR_PATHS = [
+    "StypeWiseFeatureEncoder.__init__: child-stype key `raise ValueError` (two messages: parent declared or not) "
+    "-> kind=reject with text_embedded / image_embedded keys, with and without the parent; pairing-accepted "
+    "(backed when the class does not document the stype), Coq check_init",
+    "StypeWiseFeatureEncoder.__init__: `stype not in supported_stypes` raise -> kind=reject; pairing-accepted; "
+    "supported_is_documented over the generated table",
+    "StypeWiseFeatureEncoder.__init__: `if stype in col_names_dict` (encoder for an absent stype is skipped) -> "
+    "how.extra_enc, kind=reject present/absent; wiring, raises:construct",
+    "StypeWiseFeatureEncoder.forward: tf.stypes canonical order, per-stype col_names, cat -> kind=frame; "
+    "names-misaligned, names-set, Coq check_order",
+    "base.Module.__setattr__: `value is not None and key in _missing_attrs`, `not _in_init and fully specified` "
+    "-> kind=lazy (None assignments, constructor args, all orders); lazy-build, lazy-use-before-complete",
+    "base.Module.validate: `raise ValueError` -> kind=lazy, every step, __call__ (demanded) and parameters / "
+    "children / modules / to / eval (correspondence only); lazy-use-before-complete",
+    "base.Module._init_modules -> init_modules raising (inadmissible na_strategy, odd out_size, probe value) -> "
+    "kind=lazy bad / bad_na / bad_out; lazy-rejection, lazy-differs-from-eager",
+    "PositionalEncoding / CyclicEncoding.__init__: odd out_size `raise ValueError` -> kind=lazy encoder bad_out",
+    "PositionalEncoding.forward assert >= 0, CyclicEncoding.forward assert in [0, 1] -> kind=frame timestamps "
+    "(every batch incl. empty), boundaries single year / single cell; raises:call:*, known "
+    "timestamp-na-none-missing-raises; Coq check_time, calendar_table_ok",
+    "StypeEncoder.forward: col_names count check, dict feat branch (text_tokenized) -> kind=frame with "
+    "text_tokenized columns through LinearModelEncoder; raises:call:*, shape, names-misaligned",
+    "LinearModelEncoder: col_to_model_cfg None raise / assert dict -> not drawn (no clause); ndim 1 / 2 / 3 and dict "
+    "input branches -> LinearModelEncoder on numerical+categorical / timestamp / embedding+multicategorical / "
+    "text_tokenized; raises:call:*, shape",
+    "EmbeddingEncoder / bags / LinearEmbeddingEncoder index arithmetic (IndexError / shape errors) -> kind=frame "
+    "boundaries (one category, no category, width 1); raises:call:*, Coq check_cat_rows / *_in_domain / check_emb",
 ]
 
 PROP = "C12"
@@ -74,12 +113,16 @@ ASSUMPTIONS = [
     "shapes, finiteness and the column association of the torch outputs are observed, not proved",
     "evaluation mode, CPU; float64 except where LinearBucketEncoder (hard-wired float32 mask) is assigned and for "
     "a share of the other cases",
+    "a raise is demanded only where the statement demands one (see CLAUSES): child-stype keys with a class that "
+    "documents the stype, guarded entry points other than __call__ on an incomplete module, and the rejection of "
+    "an inadmissible NA strategy as such are NOT demanded by C12 (either outcome accepted; not compared with the "
+    "model on a normal return)",
     "a None re-assignment of an attribute that was already supplied is outside the property (the key stays "
     "supplied; the model predicts what happens and the correspondence checks it)",
 ]
 
 FRAME_STYPES = ["numerical", "categorical", "multicategorical", "timestamp", "embedding", "text_embedded",
-                "image_embedded"]
+                "image_embedded", "text_tokenized"]
 PARENT = {"text_embedded": "embedding", "image_embedded": "embedding"}
 CLS_OF = {"LinearEncoder", "StackEncoder", "LinearBucketEncoder", "LinearPeriodicEncoder", "ExcelFormerEncoder",
           "EmbeddingEncoder", "MultiCategoricalEmbeddingEncoder", "TimestampEncoder", "LinearEmbeddingEncoder",
@@ -122,7 +165,7 @@ def ensure_usable(rng, desc):
 
 def gen_spec(rng, st, has_missing_ts, force_cls=None):
     own = [c for c in H.ADMISSIBLE[st] if c != "LinearModelEncoder"]
-    cls = "LinearModelEncoder" if rng.chance(0.12) else rng.pick(own)
+    cls = "LinearModelEncoder" if rng.chance(0.12) or not own else rng.pick(own)
     if force_cls is not None:
         cls = force_cls
     na = rng.pick(H.NA_ADMISSIBLE[st])
@@ -244,7 +287,7 @@ def gen_frame_case(rng, tier, k=None):
     elif extra == "range":
         a = rng.randint(0, n)
         batches.append({"t": "range", "a": a, "b": rng.randint(a, n)})
-    absent = [p for p in H.ADMISSIBLE if p not in parents]
+    absent = [p for p in H.ADMISSIBLE if p not in parents and p != "text_tokenized"]
     how = {"ctor": rng.pick(["pos", "kw"]), "entry": rng.pick(["call", "call", "forward"]),
            "move": rng.pick([None, None, "to", "cpu"]),
            "extra_enc": rng.pick(absent) if absent and rng.chance(0.3) else None}
@@ -305,10 +348,12 @@ def gen_lazy_case(rng, tier):
     bad_na = None
     if rng.chance(0.25):
         bad_na = rng.pick([x for x in H.ALL_NA if x not in H.NA_ADMISSIBLE[st]])
+    # another configuration init_modules rejects: an odd out_size (positional / cyclic encoding raise ValueError)
+    bad_out = cls == "TimestampEncoder" and bad_na is None and rng.chance(0.4)
     if rng.chance(0.25) and ops and cls != "TimestampEncoder" and bad_na is None:
         ops.insert(rng.randrange(len(ops) + 1), ["na_strategy", None])
     return {"kind": "lazy", "target": "encoder", "cls": cls, "stype": st, "eager": eager, "ops": ops,
-            "bad_na": bad_na, "channels": rng.randint(1, 3), "seed": rng.randint(0, 10 ** 6)}
+            "bad_na": bad_na or ("odd out_size" if bad_out else None), "bad_out": bad_out, "channels": rng.randint(1, 3), "seed": rng.randint(0, 10 ** 6)}
 
 
 def gen_reject_case(rng, tier):
@@ -444,6 +489,12 @@ def perturb_column(tf, st, k, stats_row):
         a, b = int(f.offset[k]), int(f.offset[k + 1])
         vals[:, a:b] = vals[:, a:b] + 0.37
         g = MultiEmbeddingTensor(num_rows=f.num_rows, num_cols=f.num_cols, values=vals, offset=f.offset)
+    elif st == stype.text_tokenized:
+        g = {}
+        for key, t in f.items():                # same cells, column k gets one more token
+            mat = [[torch.cat([t[r, c], t[r, c].new_tensor([1 if key == "attention_mask" else 7])]) if c == k
+                    else t[r, c] for c in range(t.num_cols)] for r in range(t.num_rows)]
+            g[key] = MultiNestedTensor.from_tensor_mat(mat) if mat else t
     else:
         raise ValueError(st)
     fd[st] = g
@@ -507,7 +558,8 @@ def run_frame(case):
         return obs
     names_dict = [(st.value, list(names)) for st, names in tf.col_names_dict.items()]
     obs["names_dict"] = names_dict
-    obs["ncols"] = {st.value: int(tf.feat_dict[st].shape[1]) for st in tf.feat_dict}
+    obs["ncols"] = {st.value: int((next(iter(tf.feat_dict[st].values())) if isinstance(tf.feat_dict[st], dict)
+                                   else tf.feat_dict[st]).shape[1]) for st in tf.feat_dict}
     obs["stage"] = "construct"
     try:
         torch.manual_seed(case["seed"])
@@ -699,7 +751,9 @@ def run_lazy_encoder(case):
     dims = [s["EMB_DIM"] for s in stats_j] if st == "embedding" else None
     spec = {"cls": case["cls"], "na": None if case["cls"] != "TimestampEncoder" else "MEDIAN_TIMESTAMP", "post": None,
             "kw": {"out_size": 2} if case["cls"] == "TimestampEncoder" else {}}
-    if case.get("bad_na"):
+    if case.get("bad_out"):
+        spec["kw"] = {"out_size": 3}
+    elif case.get("bad_na"):
         spec["na"] = case["bad_na"]
     vals = {"out_channels": case["channels"], "stats_list": stats, "stype": H.st_of(st), "na_strategy": None}
     base = getattr(E, case["cls"])
@@ -995,15 +1049,17 @@ def oracle_lazy(case, obs):
     # encoder classes
     supplied = set(case["eager"])
     need = {"out_channels", "stats_list", "stype"}
-    bad = bool(case.get("bad_na"))
     if obs.get("exc"):
         return dict(key=f"lazy-encoder-raises:{case['cls']}", what=f"assigning a lazy attribute raised {obs['exc']}")
-    if obs["ctor_raised"] != (bad and supplied == need):
-        return dict(key="inadmissible-strategy-accepted" if bad else "lazy-encoder-raises:" + case["cls"],
-                    what=f"{case['cls']}(na_strategy={case.get('bad_na')}, all attributes given): constructor "
-                         f"raised={obs['ctor_raised']}", expected=bad and supplied == need, observed=obs["ctor_raised"])
     if obs["ctor_raised"]:
+        # the eager route itself: whether an inadmissible strategy must be rejected is C13's clause, not C12's
+        if not case.get("bad_na"):
+            return dict(key="lazy-encoder-raises:" + case["cls"], what=f"{case['cls']} with all attributes given "
+                                                                       "raised at construction")
         return None
+    # C12 demands that the lazy route behaves identically to the eager one: it must reject exactly when the
+    # eagerly constructed encoder (observed) rejects
+    bad = bool(case.get("bad_na")) and bool(obs.get("eager_rejects", True))
     steps = [None] + case["ops"]
     was_full = False
     for i, (op, o) in enumerate(zip(steps, obs["trace"])):
@@ -1013,10 +1069,10 @@ def oracle_lazy(case, obs):
         completes = full and not was_full
         was_full = full
         if o["raised"] != (bad and completes and i > 0):
-            return dict(key="inadmissible-strategy-accepted" if bad else f"lazy-encoder-raises:{case['cls']}",
+            return dict(key="lazy-differs-from-eager" if bad else f"lazy-encoder-raises:{case['cls']}",
                         what=f"{case['cls']}(na_strategy={case.get('bad_na')}) on {case['stype']}: step {i} "
-                             f"raised={o['raised']}; the completing assignment must raise exactly when the strategy "
-                             "is inadmissible", expected=bad and completes, observed=o)
+                             f"raised={o['raised']}; the completing assignment must raise exactly when the eager "
+                             "constructor rejects the same configuration", expected=bad and completes, observed=o)
         runs = full and not bad
         if o["use_ok"] != runs or o["full"] != full:
             return dict(key="lazy-use-before-complete" if o["use_ok"] and not runs else "lazy-refuses-complete",
@@ -1026,10 +1082,7 @@ def oracle_lazy(case, obs):
         if o["n_init"] != (1 if full else 0):
             return dict(key="lazy-build", what=f"{case['cls']} after step {i}: init_modules ran {o['n_init']} time(s)",
                         expected=1 if full else 0, observed=o["n_init"])
-    if bad:
-        if not obs.get("eager_rejects"):
-            return dict(key="inadmissible-strategy-accepted", what=f"{case['cls']}(na_strategy={case['bad_na']}) on "
-                                                                   f"{case['stype']} was accepted at construction")
+    if case.get("bad_na"):
         return None
     if was_full:
         e = obs.get("eager")
@@ -1039,15 +1092,24 @@ def oracle_lazy(case, obs):
     return None
 
 
-def oracle_reject(case, obs):
-    bad = None
+def reject_verdict(case):
+    """(backed reason to demand a rejection | None, unbacked reason the current code rejects for | None).
+    Backed: "unsupported stype/encoder pairings are rejected at construction" -- the class does not document the
+    stype.  Unbacked: a child stype used as key with a class that documents it (LinearModelEncoder /
+    text_embedded): the code rejects child keys, the statement does not ask for it -> either outcome accepted."""
+    unbacked = None
     for k, cls in case["dict"]:
-        if PARENT.get(k):
-            bad = f"child stype {k} used as a key"
-            break
         if k not in DOC_KEYS[cls]:
-            bad = f"{cls} does not encode {k}"
-            break
+            return f"{cls} does not encode {k}", unbacked
+        if PARENT.get(k):
+            unbacked = f"child stype {k} used as a key"
+    return None, unbacked
+
+
+def oracle_reject(case, obs):
+    bad, unbacked = reject_verdict(case)
+    if bad is None and unbacked is not None:
+        return None                                # not demanded by the statement: a raise or a normal return
     if bad and not obs["raised"]:
         return dict(key="pairing-accepted", what=f"stype_encoder_dict {case['dict']} was accepted although {bad}",
                     expected="ValueError", observed=obs)
@@ -1129,7 +1191,7 @@ def stats(cases, obss):
     d = {"kinds": {}, "classes": {}, "na": {}, "batches": {}, "batch_errors": 0, "materialize_failed": 0,
          "columns_perturbed": 0, "columns_moved": 0, "lazy_targets": {}, "lazy_ops": 0, "reject_raised": 0,
          "f64": 0, "total": 0, "how": {}, "kw_defaults": 0, "lazy_uses": {}, "boundaries": {}, "posts": {},
-         "inplace_post_by_class": {}, "channels": {}}
+         "inplace_post_by_class": {}, "channels": {}, "lazy_rejected_by": {}, "stypes": {}}
     for c, o in zip(cases, obss):
         if c is None:
             continue
@@ -1146,6 +1208,9 @@ def stats(cases, obss):
             for b in BOUNDARIES:
                 d["boundaries"][b] = d["boundaries"].get(b, 0) + (b in (c.get("boundary") or []))
             d["channels"][c["channels"]] = d["channels"].get(c["channels"], 0) + 1
+            for col in c["desc"]["cols"]:
+                if col["name"] != c["desc"]["target"]:
+                    d["stypes"][col["stype"]] = d["stypes"].get(col["stype"], 0) + 1
             for k, v in c["enc"].items():
                 d["posts"][str(v["post"])] = d["posts"].get(str(v["post"]), 0) + 1
                 if v["post"] in H.INPLACE_POSTS:
@@ -1164,6 +1229,10 @@ def stats(cases, obss):
                 d["columns_moved"] += bool(a.get("moved"))
         elif c["kind"] == "lazy":
             d["lazy_targets"][c["target"]] = d["lazy_targets"].get(c["target"], 0) + 1
+            why = "odd out_size" if c.get("bad_out") else ("na_strategy" if c.get("bad_na") else
+                                                          ("probe value" if c.get("bad") is not None else None))
+            if why:
+                d["lazy_rejected_by"][why] = d["lazy_rejected_by"].get(why, 0) + 1
             if c["target"] == "probe":
                 d["lazy_uses"][c.get("use", "call")] = d["lazy_uses"].get(c.get("use", "call"), 0) + 1
             d["lazy_ops"] += len(c["ops"])
@@ -1199,6 +1268,9 @@ def sanity(cases, obss):
                 probs.append(f"boundary never drawn: {b}")
         if d["channels"].get(1, 0) == 0:
             probs.append("out_channels = 1 never drawn")
+        for st_ in FRAME_STYPES:
+            if d["stypes"].get(st_, 0) == 0:
+                probs.append(f"no feature column of stype {st_} drawn")
         for p_ in H.POSTS:
             if d["posts"].get(str(p_), 0) == 0:
                 probs.append(f"post-module form {p_} never drawn")
@@ -1224,6 +1296,9 @@ def sanity(cases, obss):
         done = sum(1 for c, o in lz if o["trace"] and o["trace"][-1]["full"] and not o.get("ctor_raised"))
         if rej == 0:
             probs.append("no lazy sequence ends in a configuration init_modules rejects")
+        for why in ("odd out_size", "na_strategy", "probe value"):
+            if d["lazy_rejected_by"].get(why, 0) == 0:
+                probs.append(f"no lazily configured module rejected because of: {why}")
         if done == 0:
             probs.append("no lazy sequence completes a module")
         if not any(o["trace"] and not o["trace"][-1]["full"] for c, o in lz):
@@ -1299,6 +1374,8 @@ def coq_term(case, obs):
             ops = [(k, None if v is None else ids.get(k, 9)) for k, v in case["ops"]]
             if obs.get("exc"):
                 return None
+            if case.get("bad_na") and not obs["ctor_raised"] and not any(o["raised"] for o in obs["trace"]):
+                return None  # rejecting an inadmissible strategy is C13's clause: not compared on a normal return
             ctor = (f"construct nat stype_encoder_params stype_encoder_lazy_attrs (probe_init_ok {bad}) "
                     f"{C.clist(args, copt_nat)}")
             if obs["ctor_raised"]:
@@ -1316,12 +1393,17 @@ def coq_term(case, obs):
                     f"{C.clist(case['args'], copt_nat)}")
             return (f"(is_raised ({ctor}) && list_eqb (list_eqb (pair_eqb String.eqb (opt_eqb Nat.eqb))) "
                     f"(fired (state_of ({ctor}))) {C.clist(obs['fired'], snap)})")
+        if case.get("use", "call") != "call" and any(o["use_ok"] and not o["full"] for o in obs["trace"]):
+            return None      # only "refuses to RUN" is demanded; the model mirrors the code's other guards
         tr = C.clist(obs["trace"], lambda o: f"((({C.cbool(o['full'])}, {C.cbool(o['use_ok'])}), "
                                              f"{C.cbool(o['raised'])}), {C.clist(o['fired'], snap)})")
         return (f"lazy_trace_eqb (lazy_trace {C.clist(PROBE_PARAMS, cs)} {C.clist(case['lazy'], cs)} {bad} "
                 f"{C.clist(case['args'], copt_nat)} "
                 + C.clist(case["ops"], lambda p: f"({cs(p[0])}, {copt_nat(p[1])})") + f") {tr}")
     # reject
+    bad, unbacked = reject_verdict(case)
+    if bad is None and unbacked is not None and not obs["raised"]:
+        return None          # the model mirrors the current code's (unbacked) raise: not compared on a normal return
     d = C.clist(case["dict"], lambda p: f"({H.cstype(p[0])}, enc_{p[1]})")
     keys = C.clist(obs["present"], H.cstype)
     wired = C.clist(obs.get("wired", []), H.cstype)
